@@ -343,13 +343,6 @@ theorem builtin_env_probes_agree :
       (builtinEnv rbFc p.1.toList p.2.1).map rbShow == p.2.2) = true := by
   decide +kernel
 
-/-- the concrete `float` formatter is the live `_float_out` on the probed values (both notations
-of `repr`, subnormal and largest doubles, 17-digit values) -/
-theorem builtin_float_fmt_agrees :
-    (Gen.rbFloatFmt.all fun p =>
-      floatFmt (.conv ("float:".toList ++ p.1)) == some p.2) = true := by
-  decide +kernel
-
 /-- none of the concrete handlers answers with a `rex` selector: the hypothesis `NoSel` of the
 theorems above is met by the concrete environment itself -/
 theorem builtin_env_no_selectors (fc : FloatConv) : NoSel (builtinEnv fc) := noSel_builtinEnv fc
